@@ -82,3 +82,173 @@ def section(ctx):
                 evicts = (len(body) >= 2 and body[0] == 'await self._delete(location)'
                           and body[1].startswith('if self._cache_directory is not None:') and 'self._delete_cached(location)' in body[1])
     ctx.emit(f'def deleteEvictsCache : Bool := {"true" if evicts else "false"}')
+    _store_plan(ctx, tree)
+
+
+# ---------------------------------------------------------------------------------------------------------------------------
+# `_store_cached` as a sequence of file-system operations on (entry | temporary next to it)   → `CacheCmd.storePlan`
+#
+# A small symbolic reading of the method body: variables are bound to the entry path, to a temporary derived from it, or to a
+# stream opened on one of them; each recognised statement contributes operations.  `except` handlers are NOT part of the plan
+# (a hard kill runs none of them; on a Python-level exception the command fails anyway); `finally` bodies are.
+# Anything not recognised ⇒ `cacheStoreRecognised = false` and the theorems about the plan stop compiling.
+_UNIQUE_HINTS = ('uuid', 'getpid', 'get_ident', 'token_hex', 'token_urlsafe', 'random', 'secrets', 'time_ns', 'monotonic',
+                 'mkstemp', 'mktemp', 'NamedTemporaryFile', 'urandom')
+
+
+def _store_plan(ctx, tree):
+    un = ctx.unparse
+    fn = ctx.find_func(tree, 'Repository', '_store_cached')
+    ops, ok, why = [], True, ''
+    env = {}                 # variable -> ('path', slot) | ('stream', slot)
+    unique = {'v': None}     # is the temporary's name unique to the run?
+
+    def bad(msg):
+        nonlocal ok, why
+        if ok:
+            ok, why = False, msg
+
+    def kw(call, name, default):
+        for k in call.keywords:
+            if k.arg == name:
+                if isinstance(k.value, ast.Constant):
+                    return k.value.value
+                bad(f'non-literal {name}= in {un(call)}')
+        return default
+
+    def path_slot(e):
+        """expression → 'entry' | 'temp' | None (not a path we know)"""
+        if isinstance(e, ast.Name) and env.get(e.id, ('', ''))[0] == 'path':
+            return env[e.id][1]
+        if isinstance(e, ast.Call) and un(e.func) in ('str', 'os.fspath', 'Path', 'os.fsencode') and len(e.args) == 1:
+            return path_slot(e.args[0])
+        if isinstance(e, ast.Call) and un(e.func) == 'Path' and [un(a) for a in e.args] == ['self._cache_directory', 'path']:
+            return 'entry'
+        if isinstance(e, ast.BinOp) and isinstance(e.op, ast.Div) and un(e) in ('Path(self._cache_directory) / path', 'self._cache_directory / path'):
+            return 'entry'
+        # a sibling derived from a known path: with_name / with_suffix / parent / '…'  / str(path) + '…'
+        if isinstance(e, ast.Call) and isinstance(e.func, ast.Attribute) and e.func.attr in ('with_name', 'with_suffix', 'with_stem') \
+                and path_slot(e.func.value) is not None:
+            return derived(e)
+        if isinstance(e, ast.BinOp) and isinstance(e.op, ast.Div) and isinstance(e.left, ast.Attribute) and e.left.attr == 'parent' \
+                and path_slot(e.left.value) is not None:
+            return derived(e)
+        if isinstance(e, ast.BinOp) and isinstance(e.op, ast.Add) and path_slot(e.left) is not None:
+            return derived(e)
+        return None
+
+    def derived(e):
+        u = any(h in un(e) for h in _UNIQUE_HINTS)
+        if unique['v'] is not None and unique['v'] != u:
+            bad('two kinds of temporaries')
+        unique['v'] = u
+        return 'temp'
+
+    def open_call(e):
+        """`X.open(mode)` / `open(X, mode)` / `io.open(X, mode)` → (slot, mode) | None"""
+        if not isinstance(e, ast.Call):
+            return None
+        if isinstance(e.func, ast.Attribute) and e.func.attr == 'open' and path_slot(e.func.value) is not None:
+            mode = e.args[0] if e.args else next((k.value for k in e.keywords if k.arg == 'mode'), ast.Constant('r'))
+            return path_slot(e.func.value), mode
+        if un(e.func) in ('open', 'io.open') and e.args and path_slot(e.args[0]) is not None:
+            mode = e.args[1] if len(e.args) > 1 else next((k.value for k in e.keywords if k.arg == 'mode'), ast.Constant('r'))
+            return path_slot(e.args[0]), mode
+        return None
+
+    def do_open(slot, mode, var):
+        if not (isinstance(mode, ast.Constant) and isinstance(mode.value, str)):
+            return bad('non-literal open mode')
+        m = mode.value.replace('b', '').replace('+', '')
+        if m not in ('w', 'x'):
+            return bad(f'open mode {mode.value!r}')
+        ops.append(('create', slot, '', m == 'x'))
+        if var is not None:
+            env[var] = ('stream', slot)
+
+    def expr(e):
+        """an expression statement"""
+        if not isinstance(e, ast.Call):
+            return bad('statement ' + un(e)[:60])
+        f = e.func
+        fname = un(f)
+        if isinstance(f, ast.Attribute):
+            recv = f.value
+            if f.attr == 'mkdir' and isinstance(recv, ast.Attribute) and recv.attr == 'parent' and path_slot(recv.value) is not None:
+                if kw(e, 'parents', False) is not True:
+                    return bad('mkdir without parents=True')
+                return ops.append(('mkdir', '', '', kw(e, 'exist_ok', False) is True))
+            if f.attr == 'write_bytes' and path_slot(recv) is not None:
+                ops.append(('create', path_slot(recv), '', False))
+                return ops.append(('write', path_slot(recv), '', False))
+            if f.attr in ('replace', 'rename') and path_slot(recv) is not None and e.args and path_slot(e.args[0]) is not None:
+                return ops.append(('rename', path_slot(recv), path_slot(e.args[0]), False))
+            if f.attr == 'unlink' and path_slot(recv) is not None:
+                return ops.append(('unlink', path_slot(recv), '', kw(e, 'missing_ok', False) is True))
+            if f.attr == 'write' and isinstance(recv, ast.Name) and env.get(recv.id, ('', ''))[0] == 'stream':
+                return ops.append(('write', env[recv.id][1], '', False))
+            if f.attr in ('flush', 'close') and isinstance(recv, ast.Name) and env.get(recv.id, ('', ''))[0] == 'stream':
+                return None
+        if fname in ('os.makedirs',) and e.args and isinstance(e.args[0], ast.Attribute) and e.args[0].attr == 'parent' \
+                and path_slot(e.args[0].value) is not None:
+            return ops.append(('mkdir', '', '', kw(e, 'exist_ok', False) is True))
+        if fname in ('os.replace', 'os.rename') and len(e.args) == 2 and all(path_slot(a) is not None for a in e.args):
+            return ops.append(('rename', path_slot(e.args[0]), path_slot(e.args[1]), False))
+        if fname in ('os.unlink', 'os.remove') and len(e.args) == 1 and path_slot(e.args[0]) is not None:
+            return ops.append(('unlink', path_slot(e.args[0]), '', False))
+        if fname in ('os.fsync',) or fname.startswith('logger.'):
+            return None
+        return bad('statement ' + un(e)[:60])
+
+    def block(stmts):
+        for st in stmts:
+            if not ok:
+                return
+            if isinstance(st, (ast.Assert, ast.Pass)) or (isinstance(st, ast.Expr) and isinstance(st.value, ast.Constant)):
+                continue
+            if isinstance(st, ast.Assign) and len(st.targets) == 1 and isinstance(st.targets[0], ast.Name):
+                v = st.targets[0].id
+                oc = open_call(st.value)
+                if oc is not None:
+                    do_open(oc[0], oc[1], v)
+                elif path_slot(st.value) is not None:
+                    env[v] = ('path', path_slot(st.value))
+                else:
+                    bad('assignment ' + un(st)[:60])
+                continue
+            if isinstance(st, ast.Expr):
+                expr(st.value)
+                continue
+            if isinstance(st, ast.With):
+                for it in st.items:
+                    oc = open_call(it.context_expr)
+                    if oc is not None:
+                        do_open(oc[0], oc[1], it.optional_vars.id if isinstance(it.optional_vars, ast.Name) else None)
+                    elif isinstance(it.context_expr, ast.Name) and env.get(it.context_expr.id, ('', ''))[0] == 'stream':
+                        pass
+                    else:
+                        bad('with ' + un(it.context_expr)[:60])
+                block(st.body)
+                continue
+            if isinstance(st, ast.Try):
+                block(st.body)
+                block(st.orelse)
+                block(st.finalbody)
+                continue
+            if isinstance(st, ast.Return) and st.value is None:
+                continue
+            bad('statement ' + un(st)[:60])
+
+    if fn is None:
+        bad('_store_cached not found')
+    else:
+        block(fn.body)
+    if ok and not ops:
+        bad('no operation recognised')
+    if not ok:
+        ctx.notes['cache.store_plan'] = '_store_cached: ' + why
+    row = lambda o: '("%s", "%s", "%s", %s)' % (o[0], o[1], o[2], 'true' if o[3] else 'false')  # noqa: E731
+    ctx.emit('/-- the file-system operations of `_store_cached`, in order: (operation, slot, second slot, flag) -/')
+    ctx.emit('def cacheStorePlanRaw : List (String × String × String × Bool) := [' + ', '.join(row(o) for o in (ops if ok else [])) + ']')
+    ctx.emit(f'def cacheTempUnique : Bool := {"true" if unique["v"] else "false"}')
+    ctx.emit(f'def cacheStoreRecognised : Bool := {"true" if ok else "false"}')
